@@ -51,7 +51,7 @@ type cadenceCase struct {
 	Limit      uint64 // max-iterations of the run (0 = none); chosen so that it cannot be reached
 	StallAt    int    // the rate function holds the ticking goroutine up at this evaluation (0 = never) ...
 	StallPct   int    // ... for this many percent of an interval
-	Special    string // "" | "limit-above-reach" | "huge-ticks"
+	Special    string // "" | "limit-above-reach" | "huge-ticks" | "limit-reached-while-dropping"
 }
 
 func (c cadenceCase) desc() string {
@@ -83,6 +83,18 @@ func TestProp_WrappedRateCadence(t *testing.T) {
 			c.RunMs = rapid.IntRange(50, 300).Draw(rt, "runMsShort")
 			c.Limit = uint64(rapid.IntRange(10, 40).Draw(rt, "limit"))
 			c.N = int(c.Limit) + rapid.IntRange(1, 30).Draw(rt, "aboveLimit")
+		case 2:
+			// the max-iterations limit is reached while tick after tick supersedes a backlog of tens of
+			// thousands of requests (one worker, bodies of 5-40 ms, ticks every 20 ms): what a tick
+			// superseded is reported dropped as a whole, or - once the limit has been reached - not at all
+			c.Special = "limit-reached-while-dropping"
+			c.Profile, c.Dist = "constant", "none"
+			c.Conc = 1
+			c.BodyUs = rapid.IntRange(5000, 40000).Draw(rt, "bodyMicrosLong")
+			c.IntervalMs = 20
+			c.RunMs = 400
+			c.Limit = uint64(rapid.IntRange(2, 6).Draw(rt, "smallLimit"))
+			c.N = rapid.SampledFrom([]int{60000, 150000}).Draw(rt, "hugeN")
 		case 1:
 			// ticks far larger than the pool: thousands of requests are dropped per tick, and all of them
 			// must be in the totals the run reports
@@ -216,6 +228,22 @@ func TestProp_WrappedRateCadence(t *testing.T) {
 		snap := out.Result.Snapshot()
 		started := snap.SuccessfulIterationDurations.Count + snap.FailedIterationDurations.Count
 		total := started + snap.DroppedIterationCount
+		if c.Special == "limit-reached-while-dropping" {
+			cls := []string{c.Special}
+			stats.Case("wrapped", c.desc(), started == c.Limit, cls, func() any {
+				return map[string]any{"case": c.desc(), "started": started, "dropped": snap.DroppedIterationCount}
+			})
+			if started > c.Limit {
+				rt.Fatalf("VERIF-VIOLATION C09: %d iterations started with max-iterations %d (%s)", started, c.Limit, c.desc())
+			}
+			// every reported tick contributes n minus what was started from it: dropped = k*n - s, 0 <= s <= limit
+			n := uint64(c.N)
+			if r := snap.DroppedIterationCount % n; r != 0 && r < n-c.Limit {
+				rt.Fatalf("VERIF-VIOLATION C09: every tick requested %d; %d started (max-iterations %d) and %d were reported dropped - that is %d whole ticks plus %d: a superseded tick's leftover was reported in part (%s)",
+					c.N, started, c.Limit, snap.DroppedIterationCount, snap.DroppedIterationCount/n, r, c.desc())
+			}
+			return
+		}
 		if c.Limit > 0 && started >= c.Limit {
 			rt.Fatalf("VERIF-INFRA: %d iterations started although the case was built so that max-iterations %d is out of reach (%s)", started, c.Limit, c.desc())
 		}
